@@ -6,6 +6,7 @@
 #include "strops.c"
 #include "vharness.h"
 #define V_STUB_BUG_DIAG
+#define V_STUB_MEMCHR
 #include "stubs.h"
 #define C_BUFFER_HARNESS_SUPPORT
 #define C_BUFFER_STO_REFUSING
